@@ -183,8 +183,9 @@ def compare(comp, fmt, want, got, facname, lab_cls, iss_cls, what):
 def eval_roundtrip(case):
     fmt, facname = case["format"], case["factory"]
     comp = "uri" if fmt.startswith("uri") else fmt
-    lab_cls, iss_cls = str_class(case["label"]), str_class(case["issuer"])
-    tag = tag_of(case["label"], case["issuer"])
+    eff_issuer = case["issuer"] or FACTORIES[facname].get("issuer")  # the class default applies when none is given
+    lab_cls, iss_cls = str_class(case["label"]), str_class(eff_issuer)
+    tag = tag_of(case["label"], eff_issuer)
     try:
         F, orig, want, ser, load = build(case)
     except Exception as e:  # noqa: BLE001
